@@ -28,7 +28,7 @@ pub const TEXT_SHAPES: [&str; 10] = [
 /// the nesting depth at all: these API variants run the same scenario on a *small* stack
 /// (suffix `@<n>k`), which turns "stack consumption grows with depth" into an observable crash
 /// long before 8 MiB would overflow, whatever the frame size of the build profile.
-pub const SMALL_STACK_APIS: [&str; 2] = ["iter@256k", "peeknext@256k"];
+pub const SMALL_STACK_APIS: [&str; 3] = ["iter@256k", "peeknext@256k", "pull+loader@256k"];
 pub const TREE_SHAPES: [&str; 3] = ["tree-seq", "tree-mapval", "tree-mapkey"];
 pub const TEXT_APIS: [&str; 7] = [
     "iter", "peeknext", "load", "lfs:Yaml", "lfs:YamlOwned", "lfs:MarkedYaml", "lfs:MarkedYamlOwned",
@@ -40,7 +40,7 @@ pub const WIDE_SHAPES: [&str; 5] = ["wide-seq", "wide-map", "wide-flowseq", "wid
 pub const WIDE_APIS: [&str; 6] = ["iter@256k", "load", "roundtrip:Yaml", "roundtrip:YamlOwned", "roundtrip:MarkedYaml", "roundtrip:MarkedYamlOwned"];
 
 pub fn shape_class(shape: &str) -> &'static str {
-    if shape.starts_with("randnest:") {
+    if shape.starts_with("randnest:") || shape.starts_with("randnest-seq:") {
         return "block";
     }
     if shape.starts_with("wide-") || shape == "flow-closed-200" || shape.starts_with("family:") {
@@ -59,7 +59,7 @@ pub fn shape_class(shape: &str) -> &'static str {
 /// A seeded deep block nest: a one-line nest of `- ` / `? ` openers drawn per level, followed
 /// by a few continuation lines that re-enter the nest as siblings at drawn levels (each closes
 /// some levels while the others stay open), optionally ending inside a flow collection.
-fn rand_nest(seed: u64, d: usize) -> String {
+fn rand_nest(seed: u64, d: usize, seq_only: bool) -> String {
     let mut r = SplitMix64::new(seed ^ 0xC11C_11C1);
     let mut s = String::with_capacity(4 * d + 64);
     let mut kinds = Vec::with_capacity(d);
@@ -67,7 +67,7 @@ fn rand_nest(seed: u64, d: usize) -> String {
     let mut cur = r.chance(1, 2);
     for k in 0..d {
         if k % run == 0 {
-            cur = r.chance(1, 2);
+            cur = seq_only || r.chance(1, 2);
         }
         kinds.push(cur);
         s.push_str(if cur { "- " } else { "? " });
@@ -98,7 +98,10 @@ fn rand_nest(seed: u64, d: usize) -> String {
 pub fn text_for(shape: &str, d: usize) -> String {
     let mut s = String::new();
     if let Some(seed) = shape.strip_prefix("randnest:") {
-        return rand_nest(seed.parse().unwrap_or(0), d);
+        return rand_nest(seed.parse().unwrap_or(0), d, false);
+    }
+    if let Some(seed) = shape.strip_prefix("randnest-seq:") {
+        return rand_nest(seed.parse().unwrap_or(0), d, true);
     }
     if let Some(fam) = shape.strip_prefix("family:") {
         // every input family of the instruction clock, `d` = size in bytes
@@ -460,6 +463,29 @@ fn scenario(shape: &str, depth: usize, api: &str) -> String {
             },
         };
     }
+    if api == "pull+loader" {
+        // the public YamlLoader fed event by event from the pull parser: no Parser::load recursion,
+        // and the loader keeps open collections on a heap stack, so this route is constant-stack
+        use saphyr::YamlLoader;
+        let mut loader: YamlLoader<'_, Yaml<'_>> = YamlLoader::default();
+        let mut n = 0u64;
+        for ev in Parser::new_from_str(&text) {
+            match ev {
+                Ok((e, span)) => {
+                    n += 1;
+                    loader.on_event(e, span);
+                }
+                Err(e) => {
+                    std::mem::forget(loader);
+                    return format!("ERR {e} (after {n} events)");
+                }
+            }
+        }
+        let docs = loader.into_documents();
+        let k = docs.len();
+        std::mem::forget(docs); // releasing a deep tree is a separate (known) scenario
+        return format!("OK {n} events into {k} documents");
+    }
     match api {
         "iter" => {
             let mut n = 0u64;
@@ -648,6 +674,11 @@ pub fn load_known(verif_dir: &str, prop: &str) -> Result<Vec<Known>, String> {
 }
 
 pub fn key_of(s: &Scn) -> String {
+    let has_explicit_keys = matches!(s.shape.as_str(), "expkey" | "alt") || s.shape.starts_with("randnest:");
+    if s.api.starts_with("pull+loader") && has_explicit_keys {
+        // nested mappings used as keys are hashed (recursively) when the loader inserts them
+        return format!("block-keys/{}", s.api);
+    }
     format!("{}/{}", shape_class(&s.shape), s.api)
 }
 
@@ -691,6 +722,11 @@ fn grid(cfg: &Config) -> Vec<Scn> {
             v.push(Scn { shape: shape.clone(), depth: d, api: api.into() });
         }
         v.push(Scn { shape: shape.clone(), depth: d.min(100_000), api: "load".into() });
+        // the same nest with sequence openers only: the loader route must be constant-stack on it
+        let seq_shape = shape.replace("randnest:", "randnest-seq:");
+        for api in SMALL_STACK_APIS {
+            v.push(Scn { shape: seq_shape.clone(), depth: d, api: api.into() });
+        }
     }
     for shape in TREE_SHAPES {
         for api in TREE_APIS {
